@@ -423,3 +423,23 @@ func (r *Run) optionPlumbed(key, rule, withName, setterName string) {
 	}
 	r.ob(key, rule, fn, at, at != nil, fmt.Sprintf("%s stores options.%s; %s(opts.%s) is called when a connection is prepared", withName, field, setter.Name(), field), false)
 }
+
+// fieldOfLoad: v is a load of struct field typ.field (also of a by-value struct parameter spilled to a local).
+func fieldOfLoad(v ssa.Value, typ, field string) (string, string, ssa.Value, bool) {
+	switch x := v.(type) {
+	case *ssa.UnOp:
+		if x.Op == token.MUL {
+			if tn, f, base, ok := fieldOf(x.X); ok && tn == typ && f == field {
+				return tn, f, base, true
+			}
+		}
+	case *ssa.Field:
+		if namedTypeName(x.X.Type()) == typ {
+			st, ok := x.X.Type().Underlying().(*types.Struct)
+			if ok && st.Field(x.Field).Name() == field {
+				return typ, field, x.X, true
+			}
+		}
+	}
+	return "", "", nil, false
+}
